@@ -376,6 +376,7 @@ class C04(AstKindProp):
     id = "C04"
     kind = "argparse"
     model_kind = "argparse"
+    allow_handwritten = True
 
     def restrict(self, irj, r):
         """argparse-expressible types only (scalars, Optional/List/Literal of scalars, kwargs dict)"""
@@ -391,7 +392,7 @@ class C04(AstKindProp):
                     p["default"] = d[1]
             out.append((n, p))
         irj = dict(irj, params=out)
-        if r.random() < 0.12:
+        if getattr(self, "allow_handwritten", False) and r.random() < 0.12:
             # hand-written style: the default sentence is in the prose without quotes ("Defaults to 8080" for a str)
             irj["params"] = [(n, dict(p, doc=p["doc"].split(" Defaults to ")[0]) if "doc" in p else p) for n, p in irj["params"]]
             irj = G.post_parse_shape(r, irj, unquoted=True)
